@@ -125,7 +125,8 @@ class AHB2Wishbone(LiteXModule):
             ahb.readyout.eq(1),
             If(ahb.sel &
               (ahb.size  <= log2_int(ahb.data_width//8)) &
-              (ahb.trans == AHBTransferType.NONSEQUENTIAL),
+              ((ahb.trans == AHBTransferType.NONSEQUENTIAL) |
+               (ahb.trans == AHBTransferType.SEQUENTIAL)),
                 NextValue(wishbone.adr, ahb.addr[wishbone_adr_shift:]),
                 NextValue(wishbone.we,  ahb.write),
                 NextValue(wishbone.sel, wishbone_sel_decoder(ahb.size, ahb.addr)),
